@@ -268,7 +268,7 @@ def check(run):
                 else:
                     why = f'to_str returned {vrepr(text)[:60]}'
                 b = it.construct(A, [text], {})
-                got = (b.attrs.get('wc'), b.attrs.get('hash_part'), b.attrs.get('is_bounceable'), b.attrs.get('is_test_only'))
+                got = (cm.field(it, b, 'wc'), cm.field(it, b, 'hash_part'), cm.field(it, b, 'is_bounceable'), cm.field(it, b, 'is_test_only'))
                 ok_rt = isinstance(got[0], K) and got[0].v == wc and got[1] is h and isinstance(got[2], K) and bool(got[2].v) == bounce \
                     and isinstance(got[3], K) and bool(got[3].v) == test
                 eq = it.cmp(ast.Eq(), a, b, None)
@@ -308,7 +308,7 @@ def check(run):
             a = new_addr(it, prog, wc, h)
             text = cm.call_method(it, a, 'to_str', K(False))
             b = it.construct(A, [text], {})
-            ok = isinstance(b.attrs.get('wc'), K) and b.attrs['wc'].v == wc and b.attrs.get('hash_part') is h
+            ok = isinstance(cm.field(it, b, 'wc'), K) and cm.field(it, b, 'wc').v == wc and cm.field(it, b, 'hash_part') is h
             ok_text = isinstance(text, Term) and text.op == 'fstr' and [vrepr(x) for x in text.a[:2]] == [repr(f'{wc}:')] or \
                 (isinstance(text, Term) and text.op == 'fstr' and ''.join(str(x.v) for x in text.a if isinstance(x, K)) == f'{wc}:')
             why = f'text {vrepr(text)[:50]} parsed to wc={vrepr(b.attrs.get("wc"))}, id={"H" if b.attrs.get("hash_part") is h else vrepr(b.attrs.get("hash_part"))[:40]}'
@@ -360,7 +360,7 @@ def check(run):
                         # the decided equality must be  Y == crc16(exactly the first 34 bytes of THIS payload)  (not of a re-encoded / normalised header)
                         want = it.cmp(ast.Eq(), Y, Term('crc', K('crc16'), Rope([(K(head), 2), (X, 32)]), K(2)), None) if ylen == 2 else None
                         ok = ylen == 2 and isinstance(want, Cond) and it.decided.get(want.key) is (True if want.pol else False)
-                        fields_ok = isinstance(res.attrs.get('wc'), K) and res.attrs['wc'].v == (wcb - 256 if wcb > 127 else wcb) and res.attrs.get('hash_part') is X
+                        fields_ok = isinstance(cm.field(it, res, 'wc'), K) and cm.field(it, res, 'wc').v == (wcb - 256 if wcb > 127 else wcb) and cm.field(it, res, 'hash_part') is X
                         run.check(ok and fields_ok, 'D3', 'Address.is_b64[checksum]' if not (ok and fields_ok) else f'accept[tag={tagb:#x},wc={wcb:#x}]',
                                   f'payload tag={tagb:#x} wc={wcb:#x} id=X crc-bytes={"Y" if ylen else "-"}({ylen}): accepted on path [{desc}] ' +
                                   ('with the checksum equality decided' if ok else 'WITHOUT a decided comparison of the trailing bytes with crc16 of the first 34 bytes of this payload (decided instead: ' + str([d for d, r in decided_crc])[:160] + ')'), w_b64)
@@ -426,8 +426,28 @@ def check(run):
     hv = it2.models.builtin(it2, 'hash', [a2], {}, None)
     run.check(isinstance(hv, K) and isinstance(hv.v, int) and not isinstance(hv.v, bool), 'D5', 'Address.__hash__[type]' if not (isinstance(hv, K) and isinstance(hv.v, int)) else '__hash__ is int',
               f'__hash__ of a concrete address returns {type(hv.v).__name__ if isinstance(hv, K) else vrepr(hv)[:30]}', prog.where(prog.method('Address', '__hash__')))
-    # fields(__hash__) subset of fields(__eq__)
-    def self_fields(fn):
-        return {n.attr for n in ast.walk(fn.node) if isinstance(n, ast.Attribute) and isinstance(n.value, ast.Name) and n.value.id == fn.node.args.args[0].arg}
-    fh, fe = self_fields(prog.method('Address', '__hash__')), self_fields(prog.method('Address', '__eq__'))
-    run.check(fh <= fe, 'D5', 'Address.__hash__[fields]' if not fh <= fe else 'hash fields within eq fields', f'__hash__ reads {sorted(fh)}, __eq__ compares {sorted(fe)}', prog.where(prog.method('Address', '__hash__')))
+    # the hash is a function of what __eq__ compares: two equal addresses that differ in every other attribute hash alike, and an address
+    # whose workchain / id was re-assigned hashes like a fresh address with the new values (no stale memo)
+    it3 = mk_interp(prog)
+    h3 = H32()
+    p_, q_ = new_addr(it3, prog, -1, h3), new_addr(it3, prog, -1, h3)
+    varied = []
+    for nm_, val_ in list(q_.attrs.items()):
+        if nm_.startswith('_') or nm_ in ('wc', 'hash_part'):
+            continue
+        if isinstance(val_, K) and isinstance(val_.v, bool):
+            it3.setattr(q_, nm_, K(not val_.v))
+            varied.append(nm_)
+    eq3_ = it3.cmp(ast.Eq(), p_, q_, None)
+    hp_, hq_ = it3.models.builtin(it3, 'hash', [p_], {}, None), it3.models.builtin(it3, 'hash', [q_], {}, None)
+    ok_ = isinstance(eq3_, K) and eq3_.v is True and repr(hp_) == repr(hq_)
+    run.check(ok_, 'D5', 'Address.__hash__[fields]' if not ok_ else 'hash is a function of the compared fields',
+              f'same (wc, id), every flag {varied} inverted: equal={vrepr(eq3_)}, hash terms equal={repr(hp_) == repr(hq_)}', prog.where(prog.method('Address', '__hash__')))
+    it3.setattr(p_, 'wc', K(0))
+    fresh = new_addr(it3, prog, 0, h3)
+    hp2, hf = it3.models.builtin(it3, 'hash', [p_], {}, None), it3.models.builtin(it3, 'hash', [fresh], {}, None)
+    eq4_ = it3.cmp(ast.Eq(), p_, fresh, None)
+    ok_ = isinstance(eq4_, K) and eq4_.v is True and repr(hp2) == repr(hf) and repr(hp2) != repr(hp_)
+    run.check(ok_, 'D5', 'Address.__hash__[after re-assignment]' if not ok_ else 'hash follows a re-assigned workchain',
+              f'wc re-assigned -1 -> 0 after hashing: equal to a fresh (0, id) address={vrepr(eq4_)}, same hash term={repr(hp2) == repr(hf)}, differs from the old hash={repr(hp2) != repr(hp_)}',
+              prog.where(prog.method('Address', '__hash__')))
